@@ -27,7 +27,8 @@ pub fn domain(letter: char, p: Profile) -> Vec<Vec<u8>> {
         return match letter {
             'K' => s(&["k1", "k2"]),
             'V' | 'M' => s(&["a"]),
-            'I' | 'F' | 'B' => s(&["1"]),
+            'I' => s(&["100000"]),
+            'F' | 'B' => s(&["1"]),
             'X' => s(&["0", "-1"]),
             'P' => s(&["*"]),
             'C' => s(&["0", "2"]),
